@@ -36,8 +36,126 @@ DIRS = {"stress": ("stress", "load"), "load": ("load", "stress"),
 
 
 def run(ctx):
-    for r in (_wiring, _inverse, _convergence, _parity_rule, _cache, _siblings):
+    for r in (_wiring, _inverse, _convergence, _parity_rule, _cache, _siblings, _derivatives):
         ctx.attempt(r)
+
+
+RO_ATTR = "_ramberg_osgood_relation"
+RO = "pylife.materiallaws.rambgood:RambergOsgood"
+
+
+def _law_nf(prog, ci):
+    """Symbolic evaluator for a law class: calls on the cached Ramberg-Osgood object are evaluated on the Ramberg-Osgood
+    class with the law's E, K, n (wiring of the constructor arguments is checked by the caller)."""
+    from ..symexec import MethodNF
+    from ..nf import RF
+    roci = prog.cls(RO)
+    ro = MethodNF(prog)
+    law = None
+
+    def extra(fn, c, tr, ci_):
+        f = c.func
+        if isinstance(f, ast.Attribute) and is_self_attr(f.value, RO_ATTR):
+            args = [tr.tr(a) for a in c.args]
+            return ro.call(roci, f.attr, args)
+        if fn in ("np.power", "numpy.power") and len(c.args) == 2:
+            return tr.tr(c.args[0]).pow(tr.tr(c.args[1]))
+        return None
+    law = MethodNF(prog, extra_call=extra)
+    a = law.attrs(ci)
+    init = prog.lookup_method(roci, "__init__")
+    rp = [p for p in init.params if p != "self"]
+    # the Ramberg-Osgood object sees the law's E, K, n
+    ro._attrs[roci.key] = {}
+    ro._run_init(roci, init, {rp[0]: a["_E"], rp[1]: a["_K"], rp[2]: a["_n"]}, ro._attrs[roci.key])
+    return law
+
+
+def _derivatives(ctx):
+    """R-C06-8: the fprime handed to Newton is the analytic derivative of func with respect to the unknown (normal forms,
+    positive branch; the negative side follows from R-C06-5 parity and the pole-guard rule), the cached Ramberg-Osgood
+    object is built from (E, K, n) in that order, and every where= mask guards exactly the pole of its quotient."""
+    from ..nf import RF, derivative, NFUnsupported
+    prog = ctx.prog
+    ctx.rule("R-C06-8", floor=12, what="fprime == d func / d unknown; where= masks exclude exactly the pole; Ramberg-Osgood built from (E, K, n)")
+    ci = prog.cls(EN)
+    base = prog.cls("pylife.materiallaws.notch_approximation_law:NotchApproximationLawBase")
+    # constructor wiring of the cached object
+    n = 0
+    for key, fi in prog.functions.items():
+        if not (fi.cls is not None and fi.cls.key in (base.key, ci.key, prog.cls(SB).key)):
+            continue
+        for st in walk_function(fi.node):
+            if isinstance(st, ast.Assign) and any(is_self_attr(t, RO_ATTR) for t in st.targets):
+                v = st.value
+                ok = isinstance(v, ast.Call) and (call_name(v) or "").endswith("RambergOsgood") and len(v.args) == 3 and \
+                    [norm_text(a) for a in v.args] in (["self._E", "self._K", "self._n"], ["E", "K", "n"], ["self.E", "self.K", "self.n"])
+                n += 1
+                if ok:
+                    ctx.holds(fi, st, "%s builds RambergOsgood(%s)" % (fi.name, ", ".join(norm_text(a) for a in v.args)))
+                else:
+                    ctx.violated(fi, st, "%s: the cached Ramberg-Osgood object is built from %s, expected (E, K, n) of the law"
+                                 % (fi.name, norm_text(v)))
+    if n == 0:
+        raise AnalysisError("no construction of the Ramberg-Osgood object found")
+    ex = _law_nf(prog, ci)
+    x, y = RF.sym("x"), RF.sym("y")
+    for meth in DIRS:
+        f = prog.lookup_method(ci, meth)
+        for c in _newton_calls(f):
+            func, fp = _kw(c, "func", 0), _kw(c, "fprime", 2)
+            if fp is None or not (is_self_attr(func) and is_self_attr(fp)):
+                continue
+            try:
+                F = ex.call(ci, func.attr, [x, y])
+                G = ex.call(ci, fp.attr, [x, y])
+            except NFUnsupported as e:
+                raise AnalysisError("%s / %s outside the normal-form fragment: %s" % (func.attr, fp.attr, e))
+            want = derivative(F, "x")
+            g = prog.lookup_method(ci, fp.attr)
+            if G == want:
+                ctx.holds(g, g.node, "%s == d %s / d %s (normal forms, positive branch)" % (fp.attr, func.attr,
+                                                                                         prog.lookup_method(ci, func.attr).params[1]))
+            else:
+                ctx.violated(g, g.node, "%s is not the derivative of %s with respect to its unknown: got %r, d/dx gives %r; Newton "
+                             "steps are wrong and the iteration stops away from the root" % (fp.attr, func.attr, G, want),
+                             text="derivative " + fp.attr)
+    # pole guards
+    for cls in (ci, prog.cls(SB), base):
+        for name, fs in cls.methods.items():
+            f = fs[-1]
+            for c in calls_in(f.node):
+                fn = call_name(c) or ""
+                w = next((k.value for k in c.keywords if k.arg == "where"), None)
+                if w is None or fn not in ("np.divide", "np.power", "np.true_divide", "np.reciprocal"):
+                    continue
+                if fn == "np.power":
+                    ev = const_value(c.args[1]) if len(c.args) > 1 else None
+                    if isinstance(c.args[1], ast.UnaryOp) and isinstance(c.args[1].op, ast.USub):
+                        ev = -const_value(c.args[1].operand) if const_value(c.args[1].operand) is not None else None
+                    if ev is None or ev >= 0:
+                        continue
+                    den = c.args[0]
+                else:
+                    den = c.args[1] if fn != "np.reciprocal" else c.args[0]
+                if isinstance(den, ast.BinOp) and isinstance(den.op, ast.Pow) and isinstance(const_value(den.right), (int, float)) \
+                        and const_value(den.right) > 0:
+                    den = den.left          # X**k vanishes exactly where X does
+                exact = isinstance(w, ast.Compare) and len(w.ops) == 1 and isinstance(w.ops[0], ast.NotEq) and \
+                    const_value(w.comparators[0]) == 0 and norm_text(w.left) == norm_text(den)
+                # frozen exception, confirmed by reading: 1/cos(u) with u = pi/2*(...) confined to [0, pi/2): cos(u) > 0 on the
+                # whole admissible domain, so `> 0` excludes only the pole and inadmissible arguments
+                cos_ok = isinstance(w, ast.Compare) and isinstance(w.ops[0], ast.Gt) and const_value(w.comparators[0]) == 0 and \
+                    norm_text(w.left) == norm_text(den) and isinstance(den, ast.Call) and call_name(den) == "np.cos"
+                if exact:
+                    ctx.holds(f, c, "%s: quotient by %s is masked exactly at its pole (%s)" % (f.name, norm_text(den), norm_text(w)))
+                elif cos_ok:
+                    ctx.holds(f, c, "%s: quotient by %s masked with %s (cosine positive on the admissible domain)" %
+                              (f.name, norm_text(den), norm_text(w)))
+                else:
+                    ctx.violated(f, c, "%s: the mask %s of the quotient by %s excludes more than the pole (or not the pole): "
+                                 "for the excluded arguments the value is the placeholder from out=, not the quotient, e.g. for "
+                                 "negative arguments" % (f.name, norm_text(w), norm_text(den)), text="pole guard " + norm_text(w))
 
 
 def _newton_calls(fi):
@@ -458,6 +576,56 @@ SP = "src/pylife/materiallaws/notch_approximation_law_seegerbeste.py"
 
 def variants():
     out = []
+
+    def mask_positive_only(tree):
+        f = find_func(tree, "ExtendedNeuber._d_stress_implicit")
+        for c in calls_in(f):
+            for k in c.keywords:
+                if k.arg == "where":
+                    k.value.ops = [ast.Gt()]
+                    return True
+        return False
+    out.append(witness("derivative masks the pole term for stress > 0 only", NP, mask_positive_only, "R-C06-8"))
+
+    def elastic_twice(tree):
+        f = find_func(tree, "ExtendedNeuber._d_e_star")
+        r = [x for x in f.body if isinstance(x, ast.Return)][0]
+        r.value = parse_expr("1/(self.K_p * self.E) + " + ast.unparse(r.value))
+        return True
+    out.append(witness("d e_star counts the elastic compliance twice", NP, elastic_twice, "R-C06-8"))
+
+    def d_sec_half(tree):
+        f = find_func(tree, "ExtendedNeuber._d_stress_secondary_implicit")
+        for c in calls_in(f):
+            if isinstance(c.func, ast.Attribute) and c.func.attr == "tangential_compliance":
+                c.args[0] = parse_expr("delta_stress")
+                return True
+        return False
+    out.append(witness("secondary derivative evaluates the compliance at the full range", NP, d_sec_half, "R-C06-8"))
+
+    def ro_args_swapped(tree):
+        f = find_func(tree, "NotchApproximationLawBase.__init__")
+        for c in calls_in(f):
+            if (call_name(c) or "").endswith("RambergOsgood"):
+                c.args = [c.args[0], c.args[2], c.args[1]]
+                return True
+        return False
+    out.append(witness("Ramberg-Osgood object built from (E, n, K)", NP, ro_args_swapped, "R-C06-8"))
+
+    def d_e_star_factored(tree):
+        f = find_func(tree, "ExtendedNeuber._d_e_star")
+        r = [x for x in f.body if isinstance(x, ast.Return)][0]
+        r.value = parse_expr("(1/self.K_p) * self._ramberg_osgood_relation.tangential_compliance(load/self.K_p)")
+        return True
+    out.append(twin("d e_star written as (1/K_p) * compliance", NP, d_e_star_factored))
+
+    def d_stress_div(tree):
+        f = find_func(tree, "ExtendedNeuber._d_stress_implicit")
+        r = [x for x in f.body if isinstance(x, ast.Return)][0]
+        r.value = parse_expr("self._ramberg_osgood_relation.tangential_compliance(stress) + load * self._K_p * e_star "
+                             "* np.power(stress, -2, out=np.ones_like(stress), where=stress!=0)")
+        return True
+    out.append(twin("d stress residual with the sign folded", NP, d_stress_div))
 
     def wrong_res(tree):
         f = find_func(tree, "ExtendedNeuber.stress_secondary_branch")
